@@ -64,6 +64,48 @@ def h_dirs(ctx, D, P, shape):
         ctx.eq(plain(u3.data), Xc, 'base_and_dirs2utpm(utpm2base_and_dirs(u))')
 
 
+def h_coeff_op(ctx, D, P):
+    """coeff_op(sl, shp): the selected coefficients regrouped into a new shape, entry k of the
+    selection landing at numpy.unravel_index(k, shp) whatever the memory layout of the data"""
+    algopy = symx.load_algopy()
+    X = _vars(ctx, 'x', (D, P, 6))
+    for label, shp, sl in (('6 -> 2x3', (D, P, 2, 3), (slice(None),)), ('6 -> 3x2', (D, P, 3, 2), (slice(None),)),
+                           ('orders 1.. as a (D-1)P x 6 matrix', ((D - 1) * P, 6), (slice(1, None),))):
+        x = mk_utpm(ctx, algopy, X)
+        try:
+            z = plain(x.coeff_op(sl, shp).data)
+        except Exception as e:
+            ctx.fact(False, 'coeff_op %s raised %s: %s' % (label, type(e).__name__, str(e)[:80]))
+            continue
+        ref = np.array(X[sl].tolist(), dtype=object).reshape(shp)
+        ctx.fact(z.shape == ref.shape, 'coeff_op %s shape %s' % (label, z.shape))
+        if z.shape == ref.shape:
+            ctx.eq(z, ref, 'coeff_op %s' % label)
+        ctx.eq(plain(x.data), X, 'coeff_op leaves its operand alone (%s)' % label)
+
+
+def h_seed_roundtrip_complex(ctx, shape):
+    """the same round trip with a COMPLEX base point and direction (complex-step style seeds):
+    nothing is cast to real"""
+    algopy = symx.load_algopy()
+    UTPM = algopy.UTPM
+    shape = tuple(shape)
+    x = _cvars(ctx, 'x', shape)
+    v = _cvars(ctx, 'v', shape)
+    ca = lambda A: mk_array(ctx, A, complex) if ctx.mode == 'sym' else np.array(A.tolist(), dtype=complex).reshape(A.shape)
+    u = UTPM.init_jac_vec(ca(x), ca(v))
+    U = plain(u.data)
+    ctx.fact(U.shape == (2, 1) + shape, 'init_jac_vec shape %s' % (U.shape,))
+    ctx.eq(U[0, 0], x, 'init_jac_vec complex base point')
+    ctx.eq(U[1, 0], v, 'init_jac_vec complex direction')
+    back = plain(np.asarray(UTPM.extract_jac_vec(u)))
+    if back.shape == shape:
+        ctx.eq(back, v, 'extract_jac_vec(init_jac_vec(x, v)) == v (complex)')
+    if len(shape) == 1:
+        uj = UTPM.init_jacobian(ca(x))
+        ctx.eq(plain(uj.data)[0], np.array([x] * shape[0], dtype=object), 'init_jacobian complex base points')
+
+
 def h_seed_roundtrip(ctx, shape):
     """base point + direction -> polynomial (init_jac_vec / init_hess_vec / init_jacobian) -> read
     back with the matching extract_*: the direction array of any shape comes back unchanged"""
@@ -312,6 +354,29 @@ def h_complex(ctx, what, D, P):
         ctx.fact(back.shape == (D + 1, P, 2), 'JTtoF(FtoJT(x)) shape %s' % (back.shape,))
         if back.shape == (D + 1, P, 2):
             ctx.eq(back[:-1], W[1:], 'JTtoF(FtoJT(x)) keeps the coefficients 1.. of a complex polynomial')
+    elif what == 'combine_blocks, wide and tall grids':
+        # 1x3 and 3x1 grids of blocks, complex data only in the LAST block (real blocks first)
+        for grid in ((1, 3), (3, 1), (2, 3)):
+            R, Cn = grid
+            blocks, refs = [], []
+            for r in range(R):
+                row, rrow = [], []
+                for c in range(Cn):
+                    last = (r == R - 1 and c == Cn - 1)
+                    B = (_cvars if last else _vars)(ctx, 'g%d%d_%d%d' % (R, Cn, r, c), (D, P, 1, 2))
+                    row.append(cu(B) if last else mk_utpm(ctx, algopy, B))
+                    rrow.append(B)
+                blocks.append(row)
+                refs.append(rrow)
+            try:
+                Cc = plain(UTPM.combine_blocks(blocks).data)
+            except Exception as e:
+                ctx.fact(False, 'combine_blocks of a %dx%d grid raised %s: %s' % (R, Cn, type(e).__name__, str(e)[:80]))
+                continue
+            ctx.fact(Cc.shape == (D, P, R, 2 * Cn), 'combined shape %s' % (Cc.shape,))
+            for r in range(R):
+                for c in range(Cn):
+                    ctx.eq(Cc[:, :, r:r + 1, 2 * c:2 * c + 2], refs[r][c], 'block (%d,%d) of a %dx%d grid' % (r, c, R, Cn))
     elif what == 'combine_blocks':
         b = [[_cvars(ctx, 'b00', (D, P, 1, 1)), _cvars(ctx, 'b01', (D, P, 1, 2))],
              [_cvars(ctx, 'b10', (D, P, 1, 1)), _cvars(ctx, 'b11', (D, P, 1, 2))]]
@@ -563,13 +628,17 @@ def units(tier, seed):
     add('dirs/integer base point/D3,P2', 'h_dirs_intbase', D=3, P=2)
     for shape in [(3,), (2, 3), (3, 2), (2, 2), (2, 3, 2), ()] + ([(4,), (1, 3), (3, 1, 2), (1,), (2, 2, 2, 2)] if tier != 'quick' else []):
         add('seed round trip/%s' % (shape,), 'h_seed_roundtrip', shape=shape)
+    for lay in (None, 'FULL_F', 'PVIEW'):
+        add('coeff_op regrouping coefficients/D3,P2/%s' % (lay or 'C order'), 'h_coeff_op', opts=({'layout': lay} if lay else None), D=3, P=2)
+    for shape in [(2,), (2, 2)]:
+        add('seed round trip, complex point and direction/%s' % (shape,), 'h_seed_roundtrip_complex', shape=shape)
     for n in ((2, 3) if tier == 'quick' else (1, 2, 3, 4, 5)):
         for uplo in ('F', 'L', 'U'):
             add('symvec/ndarray/n%d,%s' % (n, uplo), 'h_symvec', n=n, uplo=uplo, kind='ndarray')
             add('symvec/utpm/n%d,%s' % (n, uplo), 'h_symvec', n=n, uplo=uplo, kind='utpm', D=2, P=2)
     add('containers/D2,P2', 'h_containers', D=2, P=2)
     add('containers/nested lists, blocks of different degree/D3,P2', 'h_misc_containers', D=3, P=2)
-    for what in ('vecsym', 'base_and_dirs', 'as_utpm', 'as_utpm, real entries first', 'FtoJT, JTtoF', 'combine_blocks'):
+    for what in ('vecsym', 'base_and_dirs', 'as_utpm', 'as_utpm, real entries first', 'FtoJT, JTtoF', 'combine_blocks', 'combine_blocks, wide and tall grids'):
         add('complex polynomials/%s/D2,P2' % what, 'h_complex', what=what, D=2, P=2)
     add('containers/combine_blocks with a P=1 block/D2,P3', 'h_combine_mixed', D=2, P=3)
     add('dirs/integer-typed directions, non-integer base point/D3,P2', 'h_dirs_intV', D=3, P=2)
